@@ -60,13 +60,23 @@ def _cases():
         st.integers(0, 4), st.floats(-1.5, 1.5), st.booleans())
 
 
+_CFG_OBJECTS: dict = {}
+
+
 def _dyn(jd0, model, deg, order, bodies, srp, gr, ratio=0.03):
+    """Dynamics built the way the scenario builds them: ONE geopotential / perturbations configuration object is handed to every
+    dynamics model that shares the settings (truth and filter dynamics of every agent), so the objects are reused across builds
+    within a case (a second model built from the same objects must contain the same terms)."""
     from resonaate.dynamics.special_perturbations import SpecialPerturbations
     from resonaate.scenario.config.geopotential_config import GeopotentialConfig
     from resonaate.scenario.config.perturbations_config import PerturbationsConfig
 
-    return SpecialPerturbations(jd0, GeopotentialConfig(model=model, degree=deg, order=order),
-                                PerturbationsConfig(third_bodies=bodies, solar_radiation_pressure=srp, general_relativity=gr), ratio)
+    key = (model, deg, order, tuple(bodies), srp, gr)
+    if key not in _CFG_OBJECTS:
+        _CFG_OBJECTS[key] = (GeopotentialConfig(model=model, degree=deg, order=order),
+                             PerturbationsConfig(third_bodies=list(bodies), solar_radiation_pressure=srp, general_relativity=gr))
+    gcfg, pcfg = _CFG_OBJECTS[key]
+    return SpecialPerturbations(jd0, gcfg, pcfg, ratio)
 
 
 def _acc(dyn, t, x):
@@ -134,6 +144,7 @@ def acceleration(c, rec):
     if t0.second or el != int(el):
         rec.label("second_or_fraction_nonzero")
     x = np.concatenate([r, v])
+    _CFG_OBJECTS.clear()  # configuration objects are shared within a case, never between cases
 
     def batch_of(xx):
         cols = [xx + np.array([7.0 * j, -3.0 * j, 2.0 * j, 1e-2 * j, -2e-2 * j, 1e-2 * j]) for j in range(k)]
@@ -169,6 +180,9 @@ def acceleration(c, rec):
             d = s - rr
             ref = ref + np.asarray(cls.mu * (d / np.linalg.norm(d) ** 3 - s / np.linalg.norm(s) ** 3), dtype=float)
         _rel("third_body", got, ref, rec, 1e-7, floor, f"third-body attraction of {bodies} at {c['t']}+{el!r}s")
+        again = pert(_dyn(jd0, c["model"], deg, order, bodies, False, False)) - base
+        if not np.array_equal(again, got):
+            raise Violation("third_body_second_model", f"a second dynamics model built from the same configuration objects gives third-body attraction {again.tolist()}, the first one {got.tolist()} ({bodies})")
     # --- solar radiation pressure --------------------------------------------------------------------
     if c["srp"]:
         ratio = 0.03
